@@ -161,6 +161,33 @@ CHECKS.update({
         note='filelock trusted; yield points are Python-level; threads stand for processes (same lock file protocol).'),
 })
 
+CHECKS.update({
+    'C16': dict(
+        cat='model_checking', ref='DESIGN.md 4.6, 6/C16', engine='cached',
+        technique='TLA+ Cached: the decorator\'s binding loop transcribed and checked equal to Python\'s binding by TLC on '
+                  'every spelling of every binding of a signature menu; call sequences with control keywords replayed',
+        text='Part A: TLC enumerates every legal spelling (positional prefix, keywords, omitted defaults) of every binding '
+             'of 6 signatures (positional, defaulted, keyword-only, ignored parameters) over 3 JSON-distinct values and '
+             'checks IBind = Bind, KeyIsBinding; all spellings are called on real objects (InMemoryCache, JsonCache, '
+             'decorator-argument cache) in random order and keyword order: one invocation and one entry per binding, '
+             'arguments received as bound. Part B: TLC explores sequences of plain / force_cache / only_cache / '
+             'store_cache_value calls over 3 methods-versions x 2 bindings; the edge cover is replayed with random '
+             'spellings comparing invocation counts and returned entries.',
+        note='Signatures without *args/**kwargs.'),
+    'C17': dict(
+        cat='model_checking', ref='DESIGN.md 4.6, 6/C17', engine='parmap',
+        technique='TLA+ ParMap (queue / in-flight / completion order / chunk loop) model-checked over all completion '
+                  'orders; complete behaviours replayed on both parallel_map implementations with completions dictated '
+                  'by gating the mapped function; chunked checked against the Chunked operator',
+        text='TLC checks EqualsMap, PermutationPerChunk, ExactlyOnce, RaisePropagates, Bounded, ChunkLaw for n<=5(6), '
+             'threads 1-3, chunk sizes 1,2,3,4,6, sort on/off, a raising element, every completion order. Complete '
+             'behaviours are executed on utils.threading.parallel_map and utils.iter.parallel_map: the harness releases '
+             'worker i exactly when the behaviour says Complete(i) (observed through Future.set_result). Result list, '
+             'per-element call counts, exception propagation and per-chunk permutation are compared; chunked is compared '
+             'on lists, generators and ranges for lengths 0-9 x sizes 1-5.',
+        note='For sort=False only "permutation within each chunk" is demanded, as the property states.'),
+})
+
 PENDING = {
     'C02': 'check not built yet (KeyScheme specification in progress)',
     'C03': 'check not built yet (KeyScheme specification in progress)',
@@ -225,6 +252,10 @@ def main():
             {'name': 'cache', 'path': '/verif/specs/Cache.tla', 'serves_properties': ['C15'],
              'kind_free_text': 'PlusCal model of FileCache.get/get_or_compute at yield-point granularity; '
                                'harness/tcverif/cache_sched.py schedules real threads'},
+            {'name': 'cached', 'path': '/verif/specs/Cached.tla', 'serves_properties': ['C16'],
+             'kind_free_text': 'TLA+ binding transcription + call-sequence dictionary for the cached decorator'},
+            {'name': 'parmap', 'path': '/verif/specs/ParMap.tla', 'serves_properties': ['C17'],
+             'kind_free_text': 'TLA+ model of chunked parallel map with arbitrary completion order'},
             {'name': 'store', 'path': '/verif/specs/StoreAtomic.tla',
              'serves_properties': ['C01', 'C04', 'C07', 'C13'],
              'kind_free_text': 'TLA+ specification of task objects / chains / data directory at public-call '
